@@ -1,12 +1,12 @@
 ------------------------------ MODULE MC_Shut ------------------------------
-(* shutdown (graceful and forced) with a running and a waiting job, persist loop on *)
+(* shutdown (graceful and forced) with a running and a waiting job, persist loop on, the pipeline may be removed by a reload *)
 EXTENDS Prunner, Catalog
 MCVerTable == <<
   MkRet(1, 1, -1, 0, 0, GSingle),     \* 1 one slot, queue
   MkRet(1, 1, 1, 0, 0, GChain)        \* 2 one slot, chain of two tasks, queue of 1
 >>
 MCInitCfgs == {<<1>>, <<2>>}
-MCReloads == {}
+MCReloads == {<<1, 0>>}
 MCBad == {"none"}
 MCFeatures == {"shutdown", "persist"}
 ==============================================================================
